@@ -599,8 +599,15 @@ func (in *Interp) hasherMethod(o *Opaque, name string, args []Value) Value {
 		h.data = append(h.data, b...)
 		return Tuple{in.mkInt(int64(len(b))), Iface{}}
 	case "Sum":
+		// Sum(b) appends to b: in place when b has the capacity (the caller's storage is written)
 		prefix := args[1].(Slice).A
-		out := append(append([]Value{}, prefix...), in.hashUF(h.alg, h.n, h.data)...)
+		dig := in.hashUF(h.alg, h.n, h.data)
+		if prefix != nil && cap(prefix)-len(prefix) >= len(dig) {
+			out := prefix[:len(prefix)+len(dig)]
+			copy(out[len(prefix):], dig)
+			return Slice{A: out}
+		}
+		out := append(append([]Value{}, prefix...), dig...)
 		return Slice{A: out}
 	case "Reset":
 		h.data = nil
